@@ -157,7 +157,7 @@ func invTarget(n [32]byte) (inv [32]byte) {
 }
 
 func intToTarget(i *big.Int) (t types.BlockID) {
-	if i.BitLen() >= 256 {
+	if i.BitLen() > 256 {
 		i = maxTarget
 	}
 	i.FillBytes(t[:])
